@@ -1,7 +1,7 @@
 (* C05 property theorems.  Nothing but statements closed by `exact`, each followed by Print Assumptions.
    Representation: 0 is the field zero, i in [1,N] (N = q-1) is g^i; val/phi map a representation to the ring. *)
 From Coq Require Import ZArith List.
-From C05 Require Import Model Checker ExtModel ProofsZech ProofsArr ProofsField ProofsIrred ProofsExt ProofsProps.
+From C05 Require Import Model Checker ExtModel ProofsZech ProofsArr ProofsField ProofsIrred ProofsExt ProofsSweep ProofsProps.
 Local Open Scope Z_scope.
 
 Theorem C05_zech_macros_are_ring_operations : Zech_ops_stmt.       Proof. exact zech_ops. Qed.
@@ -28,3 +28,7 @@ Theorem C05_generator_primitive_when_checked : Generator_primitive_stmt.     Pro
 Print Assumptions C05_generator_primitive_when_checked.
 Theorem C05_extension_ops_are_quotient_ring_operations : Ext_ops_stmt.     Proof. exact ext_ops. Qed.
 Print Assumptions C05_extension_ops_are_quotient_ring_operations.
+(* bounded (complete kernel sweep): for every prime power q <= 16, every modulus and generator accepted by fg_ok, the tables
+   the builder computes are accepted by tables_ok; the same statement for all fields is checked per field, not proved *)
+Theorem C05_builder_tables_accepted_partial : Builder_accepted_bounded_stmt.     Proof. exact builder_accepted_bounded. Qed.
+Print Assumptions C05_builder_tables_accepted_partial.
